@@ -77,7 +77,9 @@ struct CaseRun {
     }
     for (size_t d = 0; d < x.docs.size(); d++) {
       if (x.docs[d]->overflowed()) {
-        if (within_capacity(m.docs[d])) viol("spurious-overflow", "doc" + std::to_string(d) + " reports overflowed() although no allocation failed and the content is within the configured limits");
+        Inspector::Snap so = Inspector::inspect(*x.docs[d], true);
+        if (so.ok && so.pools >= (size_t)AJ::detail::NULL_SLOT / ARDUINOJSON_POOL_CAPACITY + 1) { x.stop = true; x.stop_reason = "pool table exhausted (C19 known finding)"; }   // slot ids lost to shrinkToFit(): C19's business
+        else if (within_capacity(m.docs[d])) viol("spurious-overflow", "doc" + std::to_string(d) + " reports overflowed() although no allocation failed and the content is within the configured limits");
         else { x.stop = true; x.stop_reason = "capacity"; }
         return;
       }
